@@ -224,7 +224,7 @@ PROPS = {
                     'recursion detection, unused-function and pub-without-params checks: bounded catalogue only', 'refutability of let / for patterns: bounded catalogue only', 'constrain_type body'],
     ),
     'C09': dict(
-        units=[],
+        units=['literal'],
         deps=[('typing', 'C17')],
         kani=[
             dict(name='c09_signed_to_bits_layout', fn='compile::signed_to_bits', label='complete-over-i64-x-sizes',
@@ -234,20 +234,24 @@ PROPS = {
         ],
         witness=['c09', '--values', '60'],
         witness_thorough=['c09', '--values', '100000'],
-        level='other',
-        technique='Kani harnesses on the real integer encoders/decoders (complete over all 64-bit values and sizes) + bounded differential check of the '
-                  'literal API against a reference value model',
+        level='proof',
+        technique='Kani harnesses on the real integer encoders/decoders (complete over all 64-bit values and sizes); Verus contracts on the aggregate arms of '
+                  'Literal::as_bits (lifted, structural induction with the recursive call opaque); bounded differential check of the literal API against a '
+                  'reference value model',
         claim='Integer layer PROVED complete-over-domain by Kani/CBMC on the real functions: unsigned_to_bits / signed_to_bits append exactly `size` bits, '
               'bit i being bit size-1-i of the value (big-endian two\'s complement), for every 64-bit value and every size 0..=64, and '
-              'wires_as_unsigned decodes them back whenever the value fits. Aggregate layers (arrays, tuples, structs, enums, Literal::parse / Display, '
-              'is_of_type, from_result_bits) are NOT under contract (recursion over Literal with HashMap<String,_> lookups, closures, formatter): a '
+              'wires_as_unsigned decodes them back whenever the value fits. Aggregate layout PROVED (Verus/Z3, structural induction per arm of the real '
+              'Literal::as_bits, the recursive call being an opaque function returning the encoding of the part): an array literal, a tuple and a struct '
+              'encode to the concatenation of the encodings of their elements / fields in order, [e; n] to n copies of the encoding of e. The enum arm '
+              '(tag + zero-padded payload), the decoders, Literal::parse / Display, is_of_type and from_result_bits are NOT under contract (recursion over Literal with HashMap<String,_> lookups, closures, formatter): a '
               'bounded differential check through compile / literal_arg / parse_arg / as_bits / eval / parse_output compares 19 types x random and '
               'boundary values with a reference model of the documented layout (size, exact bits, print-parse round trip, identity program) and 21 '
               'hostile literals (out-of-range numbers, permuted / duplicated / missing struct fields, wrong enum arity, inverted or oversized ranges) '
               'which must be refused or encode canonically, never panic.',
-        note='Trusted: Kani/CBMC; the reference encoder in replay/src/c09.rs. Bounded part is labelled bounded and not counted as proved.',
-        title='literal encoding: integer encoders/decoders proved for all values and sizes (Kani); aggregates, parsing, validation by bounded differential',
-        unverified=['Literal::as_bits / from_unwrapped_bits / from_result_bits aggregate arms', 'Literal::parse, Display', 'Literal::is_of_type',
+        note='Trusted: Kani/CBMC; Verus/Z3, vstd; Vec::extend with a vector argument modelled by a verified helper (R22), a range copy_from_slice by the loop it denotes (R23); '
+             'the reference encoder in replay/src/c09.rs. Bounded part is labelled bounded and not counted as proved.',
+        title='literal encoding: integer encoders/decoders proved for all values and sizes (Kani), aggregate concatenation proved (Verus); enum layout, decoding, parsing, validation by bounded differential',
+        unverified=['Literal::as_bits enum and range arms, from_unwrapped_bits / from_result_bits', 'Literal::parse, Display', 'Literal::is_of_type',
                     'Evaluator::set_* / TryFrom<EvalOutput>'],
     ),
     'C12': dict(
